@@ -271,3 +271,40 @@ fn c14_bufs() {
     kani::cover!(n == 0, "empty");
     kani::cover!(n == 4, "full");
 }
+
+// =========================================================================================
+// C14  c14.counting — the byte-counting wrapper (ReadNBuf, used by read_n / recv_n and their vectored forms) is
+//   transparent: pointer/length pairs, capacities and the hidden request form (`parts`) are the inner buffer's, marking n
+//   bytes initialised appends exactly n to the inner buffer(s) and records n.
+// =========================================================================================
+#[kani::proof]
+#[kani::unwind(3)]
+fn c14_counting() {
+    let inner = any_tb();
+    let mut b = crate::io::ReadNBuf { buf: inner, last_read: kani::any() };
+    let (ptr, len) = unsafe { BufMut::parts_mut(&mut b) };
+    assert!(ptr.addr() == inner.base.wrapping_add(inner.len as usize) && len == spare(&inner), "pair is the inner buffer's spare part");
+    assert!(BufMut::spare_capacity(&b) == len && BufMut::has_spare_capacity(&b) == (len != 0));
+    assert!(matches!(BufMut::parts(&mut b), crate::io::BufMutParts::Buf { ptr: p, len: l } if p.addr() == ptr.addr() && l == len), "request form (parts) is the inner buffer's");
+    let n: usize = kani::any();
+    kani::assume(n <= len as usize);
+    unsafe { BufMut::set_init(&mut b, n) };
+    assert!(b.last_read == n && b.buf.len == inner.len + n as u32 && b.buf.base == inner.base && b.buf.cap == inner.cap, "exactly n bytes appended, and counted");
+    // vectored form over two buffers
+    let i0 = any_tb();
+    let i1 = any_tb();
+    let mut v = crate::io::ReadNBuf { buf: (i0, i1), last_read: kani::any() };
+    let iov = unsafe { BufMutSlice::<2>::as_iovecs_mut(&mut v) };
+    assert!(iov[0].len() as u32 == spare(&i0) && iov[1].len() as u32 == spare(&i1));
+    assert!(spare(&i0) == 0 || unsafe { iov[0].ptr() }.addr() == i0.base + i0.len as usize);
+    assert!(spare(&i1) == 0 || unsafe { iov[1].ptr() }.addr() == i1.base + i1.len as usize);
+    let tot = spare(&i0) as u64 + spare(&i1) as u64;
+    kani::assume(tot <= u32::MAX as u64);
+    assert!(BufMutSlice::<2>::total_spare_capacity(&v) as u64 == tot && BufMutSlice::<2>::has_spare_capacity(&v) == (tot != 0));
+    let m: usize = kani::any();
+    kani::assume(m as u64 <= tot);
+    unsafe { BufMutSlice::<2>::set_init(&mut v, m) };
+    let first = if m < spare(&i0) as usize { m } else { spare(&i0) as usize };
+    assert!(v.last_read == m && v.buf.0.len == i0.len + first as u32 && v.buf.1.len == i1.len + (m - first) as u32, "front to back, exactly m in total, counted");
+    kani::cover!(n > 0 && m > spare(&i0) as usize, "spills into the second buffer");
+}
